@@ -9,7 +9,7 @@ from hypothesis import strategies as st
 from anytree import Node
 from anytree.exporter import DotExporter, UniqueDotExporter
 
-from .. import forest, refs, shapes, strategies
+from .. import forest, nodes, refs, shapes, strategies
 from ..core import Violation
 
 PROP_ID = "C12"
@@ -29,7 +29,10 @@ ASSUMPTIONS = [
     "names are unique per tree for DotExporter/RenderTreeGraph (identifiers are the names); only UniqueDotExporter gets colliding names",
     "KF-C12-1: an edge to an undeclared identifier is tolerated only from a declared parent with depth in range to a child with stop(c) true and filter_(c) true",
 ]
-NAME_ALPHABET = "ab \"\\'\n\té漢-:{}[];>"
+NAME_ALPHABET = "abnlr \"\\\\'\n\té漢-:{}[];>"
+
+
+NODE_CLASSES = {"Node": Node, "EqNode": nodes.EqNode, "FalsyNode": nodes.FalsyNode, "LenNode": nodes.LenNode}
 
 
 def esc(text):
@@ -262,7 +265,8 @@ def check_exporter(case, kind, tree, labels, acc):
 
 def check_case(case, acc):
     names = case["names"]
-    tree = forest.build_tree(case["shape"], lambda i: Node(names[i]))
+    nodecls = NODE_CLASSES[case.get("cls", "Node")]
+    tree = forest.build_tree(case["shape"], lambda i: nodecls(names[i]))
     labels = forest.Labels(tree)
     before = forest.snapshot(tree, labels)
     results = {}
@@ -309,7 +313,7 @@ def check_case(case, acc):
 
 
 def special_names(size, scheme):
-    pool = ['a"b', "c\\d", "e f", "g\nh", "é漢", 'q\\"r', "x", "\\", '"', "end\\"]
+    pool = ['a"b', "c\\d", "e f", "g\nh", "é漢", 'q\\"r', "x", "\\", '"', "end\\", "a\\nb", "C:\\new\\logs\\run"]
     return ["%s%d" % (pool[(i + scheme) % len(pool)], i) if scheme % 2 else "%d%s" % (i, pool[(i + scheme) % len(pool)]) for i in range(size)]
 
 
@@ -333,7 +337,7 @@ def _enum_cases(max_nodes, index, count):
             for stop in shapes.subsets(sub):
                 for hide in shapes.subsets(sub):
                     for maxlevel in [None] + list(range(0, height + 3)):
-                        yield {"shape": forest.to_list(shape), "names": names, "start": start, "stop": stop, "hide": hide, "maxlevel": maxlevel}
+                        yield {"shape": forest.to_list(shape), "names": names, "start": start, "stop": stop, "hide": hide, "maxlevel": maxlevel, "cls": ("Node", "EqNode", "Node", "FalsyNode", "LenNode")[k % 5]}
 
 
 NAME = st.text(alphabet=NAME_ALPHABET, min_size=0, max_size=4)
@@ -362,6 +366,7 @@ def random_cases(draw, exporters=("DotExporter", "UniqueDotExporter", "RenderTre
         "exporters": kinds,
         "to_file": draw(st.integers(0, 9)) == 0,
         "mutations": draw(strategies.tree_mutations(max_ops=2)),
+        "cls": draw(st.sampled_from(["Node", "Node", "EqNode", "FalsyNode", "LenNode"])),
     }
     if draw(st.booleans()):
         funcs = {}
